@@ -194,7 +194,7 @@ func (e *Exec) evalIdent(env *Env, x *ast.Ident) Val {
 	case "nilbytes":
 		return vBytes(`""`, "true")
 	case "emptystrs":
-		return vSeqTerm("(as seq.empty (Seq String))")
+		return vSeqTerm(constArr("String"), "0")
 	case "SOH":
 		return vStr(sStr("\x01"))
 	}
@@ -294,7 +294,7 @@ func (e *Exec) indexVal(env *Env, b, i Val) Val {
 		if b.T != nil {
 			if sl, ok := b.T.Underlying().(*types.Slice); ok {
 				s := e.seqOf(env.st, b.t(), sl.Elem())
-				return e.elemPure(sx("seq.nth", s, i.t()), sl.Elem())
+				return e.elemPure(sx("select", s, i.t()), sl.Elem())
 			}
 		}
 	}
@@ -414,7 +414,8 @@ func (e *Exec) evalCall(env *Env, x *ast.CallExpr) Val {
 		case KRef:
 			if v.T != nil {
 				if sl, ok := v.T.Underlying().(*types.Slice); ok {
-					return vInt(sx("seq.len", e.seqOf(env.st, v.t(), sl.Elem())))
+					_ = sl
+					return vInt(e.seqLen(env.st, v.t()))
 				}
 			}
 		}
@@ -501,8 +502,9 @@ func (e *Exec) evalCall(env *Env, x *ast.CallExpr) Val {
 		e.S.DeclareFun("timeFormat", []string{"Int", "String"}, "String")
 		return vStr(sx("timeFormat", arg(0).t(), asStr(arg(1))))
 	case "join":
-		e.S.DeclareFun("join", []string{"(Seq String)", "String"}, "String")
-		return vStr(sx("join", e.seqTermOfT(env, arg(0), "String"), asStr(arg(1))))
+		e.S.DeclareFun("join", []string{"(Array Int String)", "Int", "String"}, "String")
+		sc, sn := e.seqPair(env, arg(0), "String")
+		return vStr(sx("join", sc, sn, asStr(arg(1))))
 	case "seqof":
 		v := arg(0)
 		srt := "Int"
@@ -511,10 +513,12 @@ func (e *Exec) evalCall(env *Env, x *ast.CallExpr) Val {
 				srt = elemSort(sl.Elem())
 			}
 		}
-		return vSeqTerm(e.seqTermOfT(env, v, srt))
+		sc, sn := e.seqPair(env, v, srt)
+		return vSeqTerm(sc, sn)
 	case "snoc":
 		// sequence of byte strings extended by one element (spec-level)
-		return vSeqTerm(sx("seq.++", e.seqTermOfT(env, arg(0), "String"), sx("seq.unit", asStr(arg(1)))))
+		sc, sn := e.seqPair(env, arg(0), "String")
+		return vSeqTerm(sx("store", sc, sn, asStr(arg(1))), sx("+", sn, "1"))
 	case "istype":
 		v := arg(0)
 		t := env.resolveType(exprString(x.Args[1]))
@@ -545,12 +549,13 @@ func (e *Exec) evalCall(env *Env, x *ast.CallExpr) Val {
 	case "seqlen":
 		v := arg(0)
 		if v.K == KUnit {
-			return vInt(sx("seq.len", v.A[0]))
+			return vInt(v.A[1])
 		}
-		return vInt(sx("seq.len", e.seqTermOf(env, v)))
+		return vInt(e.seqLen(env.st, v.t()))
 	case "nths":
 		v := arg(0)
-		return vStr(sx("seq.nth", e.seqTermOfT(env, v, "String"), arg(1).t()))
+		sc, _ := e.seqPair(env, v, "String")
+		return vStr(sx("select", sc, arg(1).t()))
 	case "nth":
 		v := arg(0)
 		var et types.Type = types.Typ[types.Int]
@@ -559,7 +564,7 @@ func (e *Exec) evalCall(env *Env, x *ast.CallExpr) Val {
 				et = sl.Elem()
 			}
 		}
-		return e.elemPure(sx("seq.nth", e.seqTermOf(env, v), arg(1).t()), et)
+		return e.elemPure(sx("select", e.seqTermOf(env, v), arg(1).t()), et)
 	case "held":
 		return vBool(boolStr(env.st != nil && env.st.held[exprString(x.Args[0])]))
 	case "unbox_int":
@@ -585,13 +590,14 @@ func boolStr(b bool) string {
 }
 
 // vSeqTerm wraps a raw sequence term as a spec-level value.
-func vSeqTerm(t string) Val { return Val{K: KUnit, A: []string{t}} }
+func vSeqTerm(content, ln string) Val { return Val{K: KUnit, A: []string{content, ln}} }
 
-func (e *Exec) seqTermOfT(env *Env, v Val, elemSort string) string {
-	if v.K == KUnit && len(v.A) == 1 {
-		return v.A[0]
+// seqPair: (element array, length) of a spec-level sequence or a slice reference.
+func (e *Exec) seqPair(env *Env, v Val, elemSort string) (string, string) {
+	if v.K == KUnit && len(v.A) == 2 {
+		return v.A[0], v.A[1]
 	}
-	return e.sel(env.st, "SEQ_"+elemSort, "(Seq "+elemSort+")", v.t())
+	return e.sel(env.st, "SEQ_"+elemSort, "(Array Int "+elemSort+")", v.t()), e.seqLen(env.st, v.t())
 }
 
 func (e *Exec) seqTermOf(env *Env, v Val) string {
@@ -655,14 +661,73 @@ func (e *Exec) applySpec(env *Env, sf *SpecFn, args []Val) Val {
 		pk = sp.Pkg
 	}
 	if sf.Body != nil {
+		key := sf.Name + "("
+		for _, a := range args {
+			key += strings.Join(flatten(a), ",") + ";"
+		}
+		key += ")@" + env.st.hv
+		for _, ent := range e.specCache2[key] {
+			ok := true
+			for an, t := range ent.reads.arrs {
+				if cur, has := env.st.heap[an]; (has && cur != t) || (!has && t != an) {
+					ok = false
+					break
+				}
+			}
+			if ok {
+				// the reads of the cached expansion also count for enclosing expansions
+				for _, tr := range e.readTrace {
+					tr.absorb(ent.reads)
+				}
+				e.lastSpecKey, e.lastSpecName = key, sf.Name
+				return ent.val
+			}
+		}
+		e.readTrace = append(e.readTrace, newReadRec())
 		n := &Env{e: e, pkg: pk, vars: map[string]Val{}, st: env.st, old: env.old, ctx: "spec " + sf.Name}
+		var argTerms, argSorts []string
 		for i, p := range sf.Params {
 			k, t := e.specType(sf.PkgPath, p.Type)
 			n.vars[p.Name] = castTo(args[i], k, t)
+			argTerms = append(argTerms, n.vars[p.Name].A...)
+			argSorts = append(argSorts, sortsOf(k)...)
 		}
 		r := e.evalExpr(n, sf.Body)
 		k, t := e.specType(sf.PkgPath, sf.Res)
-		return castTo(r, k, t)
+		res := castTo(r, k, t)
+		reads := e.readTrace[len(e.readTrace)-1]
+		e.readTrace = e.readTrace[:len(e.readTrace)-1]
+		if sf.Opaque && !(e.fc != nil && contains(e.fc.Reveal, sf.Name)) {
+			// hidden definition: an uninterpreted function of the arguments and of
+			// every heap cell the body read (so unrelated stores do not change it)
+			sorts := append(append([]string{}, argSorts...), reads.sorts...)
+			terms := append(append([]string{}, argTerms...), reads.cells...)
+			sig := strings.Join(sorts, " ")
+			if prev, ok := e.opaqueSig[sf.Name]; ok && prev != sig {
+				res = e.freshVal("s_"+sf.Name, t, k)
+			} else {
+				e.opaqueSig[sf.Name] = sig
+				rs := sortsOf(k)
+				hidden := Val{K: k, T: t}
+				for ci, rsrt := range rs {
+					fn := fmt.Sprintf("opq_%s_%d", sf.Name, ci)
+					e.S.DeclareFun(fn, sorts, rsrt)
+					hidden.A = append(hidden.A, e.S.Define("s_"+sf.Name, rsrt, sx(fn, terms...)))
+				}
+				if k == KBytes {
+					e.S.Assert(sImp(hidden.A[1], sEq(sx("str.len", hidden.A[0]), "0")))
+				}
+				res = hidden
+			}
+		} else {
+			res = e.nameVal("s_"+sf.Name, res, t)
+		}
+		for _, tr := range e.readTrace {
+			tr.absorb(reads)
+		}
+		e.specCache2[key] = append(e.specCache2[key], specEntry{reads, res})
+		e.lastSpecKey, e.lastSpecName = key, sf.Name
+		return res
 	}
 	// uninterpreted
 	var sorts []string
@@ -678,6 +743,9 @@ func (e *Exec) applySpec(env *Env, sf *SpecFn, args []Val) Val {
 		terms = append(terms, a.A...)
 	}
 	for _, r := range sf.Reads {
+		if sf.Heap {
+			break
+		}
 		for _, an := range e.P.readArrays(pk, r) {
 			srt := e.arrSortOf(an)
 			sorts = append(sorts, "(Array Int "+srt+")")
@@ -694,6 +762,18 @@ func (e *Exec) applySpec(env *Env, sf *SpecFn, args []Val) Val {
 	e.S.DeclareFun(sf.Name+"_s", sorts, "String")
 	e.S.DeclareFun(sf.Name+"_n", sorts, "Bool")
 	return Val{K: k, T: t, A: []string{sx(sf.Name+"_s", terms...), sx(sf.Name+"_n", terms...)}}
+}
+
+func heapFingerprint(st *State) string {
+	if st == nil {
+		return ""
+	}
+	var b strings.Builder
+	b.WriteString(st.hv)
+	for _, k := range sortedKeys(st.heap) {
+		b.WriteString("|" + k + "=" + st.heap[k])
+	}
+	return b.String()
 }
 
 func (e *Exec) arrSortOf(name string) string {
